@@ -65,20 +65,29 @@ theorem amGet_mem (m : List (κ × ν)) (k : κ) (v : ν) (h : amGet m k = some 
 end AssocList
 
 -- ---------------------------------------------------------------------------------------------
--- ROUTER identity map: refinement invariant
+-- ROUTER identity map: refinement invariants
 -- ---------------------------------------------------------------------------------------------
 
-/-- implementation state `m` represents specification state `sp` -/
-def RouterInv (m : RouterMap) (sp : List (Nat × (Ident × PeerInfo))) : Prop :=
-  (∀ id info, amGet m.fwd id = some info ↔ ∃ pipe, amGet sp pipe = some (id, info)) ∧
+abbrev RSpec := List (Nat × (Ident × PeerInfo))
+
+/-- holds after EVERY history: the reverse map is exact, the forward map is sound -/
+def RouterInv (m : RouterMap) (sp : RSpec) : Prop :=
   (∀ pipe id, amGet m.rev pipe = some id ↔ ∃ info, amGet sp pipe = some (id, info)) ∧
-  (∀ p1 p2 id i1 i2, amGet sp p1 = some (id, i1) → amGet sp p2 = some (id, i2) → p1 = p2)
+  (∀ id info, amGet m.fwd id = some info → amGet sp info.pipe = some (id, info))
+
+/-- holds additionally after collision-free histories: the forward map is complete -/
+def RouterInvCF (m : RouterMap) (sp : RSpec) : Prop :=
+  (∀ pipe id info, amGet sp pipe = some (id, info) → amGet m.fwd id = some info) ∧
+  (∀ pipe id info, amGet sp pipe = some (id, info) → info.pipe = pipe)
 
 theorem RouterInv.init : RouterInv {} [] := by
-  refine ⟨?_, ?_, ?_⟩ <;> simp [amGet_nil]
+  refine ⟨?_, ?_⟩ <;> simp [amGet_nil]
+
+theorem RouterInvCF.init : RouterInvCF {} [] := by
+  refine ⟨?_, ?_⟩ <;> simp [amGet_nil]
 
 /-- what "no collision" means semantically -/
-theorem noCollision_of_any (sp : List (Nat × (Ident × PeerInfo))) (pipe : Nat) (id : Ident)
+theorem noCollision_of_any (sp : RSpec) (pipe : Nat) (id : Ident)
     (h : (sp.any fun e => e.1 != pipe && e.2.1 == id) = false) :
     ∀ p i, amGet sp p = some (id, i) → p = pipe := by
   intro p i hg
@@ -87,227 +96,290 @@ theorem noCollision_of_any (sp : List (Nat × (Ident × PeerInfo))) (pipe : Nat)
   have := h _ hm
   simpa using this
 
-theorem RouterInv.insert (m : RouterMap) (sp : List (Nat × (Ident × PeerInfo))) (pipe : Nat) (id : Ident)
-    (info : PeerInfo) (hinv : RouterInv m sp)
-    (hnc : ∀ p i, amGet sp p = some (id, i) → p = pipe) :
-    RouterInv
-      { fwd := amInsert (match amGet m.rev pipe with
-                  | some oldId => if oldId != id then amRemove m.fwd oldId else m.fwd
-                  | none => m.fwd) id info,
-        rev := amInsert m.rev pipe id }
+theorem ownedBy_iff (fwd : List (Ident × PeerInfo)) (id : Ident) (pipe : Nat) :
+    ownedBy fwd id pipe = true ↔ ∃ i, amGet fwd id = some i ∧ i.pipe = pipe := by
+  unfold ownedBy
+  cases amGet fwd id with
+  | none => simp
+  | some i => simp
+
+/-- the forward map after dropping the pipe's previous identity (if it changes and the pipe owns it) -/
+def remFwd (m : RouterMap) (pipe : Nat) (id : Ident) : List (Ident × PeerInfo) :=
+  match amGet m.rev pipe with
+  | some oldId => if oldId != id && ownedBy m.fwd oldId pipe then amRemove m.fwd oldId else m.fwd
+  | none => m.fwd
+
+theorem remFwd_some (m : RouterMap) (pipe : Nat) (id k : Ident) (i : PeerInfo)
+    (h : amGet (remFwd m pipe id) k = some i) :
+    amGet m.fwd k = some i ∧ ¬ (amGet m.rev pipe = some k ∧ k ≠ id ∧ i.pipe = pipe) := by
+  unfold remFwd at h
+  cases hold : amGet m.rev pipe with
+  | none => simp only [hold] at h; exact ⟨h, by simp⟩
+  | some oldId =>
+    simp only [hold] at h
+    by_cases hc : (oldId != id && ownedBy m.fwd oldId pipe) = true
+    · simp only [hc, if_true, amGet_amRemove] at h
+      by_cases hk : oldId = k
+      · simp [hk] at h
+      · simp only [hk, if_false] at h
+        exact ⟨h, by simp [hk]⟩
+    · simp only [hc] at h
+      refine ⟨h, ?_⟩
+      rintro ⟨e, hne, hp⟩
+      simp only [Option.some.injEq] at e
+      subst e
+      apply hc
+      simp only [Bool.and_eq_true, bne_iff_ne, ne_eq]
+      exact ⟨hne, (ownedBy_iff _ _ _).2 ⟨i, h, hp⟩⟩
+
+theorem remFwd_of_some (m : RouterMap) (pipe : Nat) (id k : Ident) (i : PeerInfo)
+    (h : amGet m.fwd k = some i) (hn : ¬ (amGet m.rev pipe = some k ∧ k ≠ id ∧ i.pipe = pipe)) :
+    amGet (remFwd m pipe id) k = some i := by
+  unfold remFwd
+  cases hold : amGet m.rev pipe with
+  | none => exact h
+  | some oldId =>
+    simp only
+    by_cases hc : (oldId != id && ownedBy m.fwd oldId pipe) = true
+    · simp only [hc, if_true, amGet_amRemove]
+      by_cases hk : oldId = k
+      · exfalso
+        subst hk
+        simp only [Bool.and_eq_true, bne_iff_ne, ne_eq] at hc
+        obtain ⟨i', hi', hp⟩ := (ownedBy_iff _ _ _).1 hc.2
+        rw [h] at hi'
+        simp only [Option.some.injEq] at hi'
+        subst hi'
+        exact hn ⟨hold, hc.1, hp⟩
+      · simp only [hk, if_false]; exact h
+    · simp only [hc]; exact h
+
+/-- canonical form of `addPeer` / `updateIdentity` -/
+theorem RouterInv.insert (m : RouterMap) (sp : RSpec) (pipe : Nat) (id : Ident) (info : PeerInfo)
+    (hip : info.pipe = pipe) (hinv : RouterInv m sp) :
+    RouterInv { fwd := amInsert (remFwd m pipe id) id info, rev := amInsert m.rev pipe id }
       (amInsert sp pipe (id, info)) := by
-  obtain ⟨hA, hB, hC⟩ := hinv
-  refine ⟨?_, ?_, ?_⟩
-  · intro id' info'
-    simp only [amGet_amInsert]
-    by_cases hid : id = id'
-    · subst hid
-      simp only [if_true]
-      constructor
-      · intro h
-        simp only [Option.some.injEq] at h
-        exact ⟨pipe, by simp [h]⟩
-      · rintro ⟨p, hp⟩
-        by_cases hpp : pipe = p
-        · simpa [hpp] using hp
-        · simp only [hpp, if_false] at hp
-          exact absurd (hnc p _ hp).symm hpp
-    · simp only [hid, if_false]
-      cases hold : amGet m.rev pipe with
-      | none =>
-        simp only
-        rw [hA]
-        have hnone : ∀ x, amGet sp pipe ≠ some x := by
-          intro x hx
-          have := (hB pipe x.1).2 ⟨x.2, hx⟩
-          simp [hold] at this
-        constructor
-        · rintro ⟨p, hp⟩
-          refine ⟨p, ?_⟩
-          have : pipe ≠ p := by intro e; subst e; exact hnone _ hp
-          simp [this, hp]
-        · rintro ⟨p, hp⟩
-          by_cases hpp : pipe = p
-          · simp [hpp, hid] at hp
-          · exact ⟨p, by simpa [hpp] using hp⟩
-      | some oldId =>
-        obtain ⟨oinfo, ho⟩ := (hB pipe oldId).1 hold
-        simp only
-        by_cases hoi : oldId = id
-        · subst hoi
-          simp only [bne_self_eq_false, Bool.false_eq_true, if_false]
-          rw [hA]
-          constructor
-          · rintro ⟨p, hp⟩
-            have : pipe ≠ p := by
-              intro e; subst e; rw [ho] at hp; simp at hp; exact hid hp.1
-            exact ⟨p, by simp [this, hp]⟩
-          · rintro ⟨p, hp⟩
-            by_cases hpp : pipe = p
-            · simp [hpp, hid] at hp
-            · exact ⟨p, by simpa [hpp] using hp⟩
-        · have hb : (oldId != id) = true := by simpa using hoi
-          simp only [hb, if_true, amGet_amRemove]
-          by_cases hoi' : oldId = id'
-          · subst hoi'
-            simp only [if_true]
-            constructor
-            · intro h; cases h
-            · rintro ⟨p, hp⟩
-              by_cases hpp : pipe = p
-              · simp [hpp, hid] at hp
-              · simp only [hpp, if_false] at hp
-                exact absurd (hC _ _ _ _ _ ho hp) hpp
-          · simp only [hoi', if_false]
-            rw [hA]
-            constructor
-            · rintro ⟨p, hp⟩
-              have : pipe ≠ p := by
-                intro e; subst e; rw [ho] at hp; simp at hp; exact hoi' hp.1
-              exact ⟨p, by simp [this, hp]⟩
-            · rintro ⟨p, hp⟩
-              by_cases hpp : pipe = p
-              · simp [hpp, hid] at hp
-              · exact ⟨p, by simpa [hpp] using hp⟩
+  obtain ⟨hA, hB⟩ := hinv
+  refine ⟨?_, ?_⟩
   · intro p id'
     simp only [amGet_amInsert]
     by_cases hpp : pipe = p
     · simp [hpp]
-    · simp only [hpp, if_false]; exact hB p id'
-  · intro p1 p2 id' i1 i2
+    · simp only [hpp, if_false]; exact hA p id'
+  · intro id' info'
     simp only [amGet_amInsert]
-    by_cases h1 : pipe = p1 <;> by_cases h2 : pipe = p2
-    · intros; omega
-    · subst h1
-      rw [if_pos rfl, if_neg h2]
-      intro e1 e2
-      simp only [Option.some.injEq, Prod.mk.injEq] at e1
-      rw [← e1.1] at e2
-      exact (hnc _ _ e2).symm
-    · subst h2
-      rw [if_pos rfl, if_neg h1]
-      intro e1 e2
-      simp only [Option.some.injEq, Prod.mk.injEq] at e2
-      rw [← e2.1] at e1
-      exact hnc _ _ e1
-    · simp only [h1, h2, if_false]
-      exact hC p1 p2 id' i1 i2
+    by_cases hid : id = id'
+    · subst hid
+      simp only [if_true, Option.some.injEq]
+      intro e; subst e
+      simp [hip]
+    · simp only [hid, if_false]
+      intro h
+      obtain ⟨hf, hn⟩ := remFwd_some m pipe id id' info' h
+      have hs := hB _ _ hf
+      by_cases hpp : pipe = info'.pipe
+      · exfalso
+        apply hn
+        refine ⟨(hA pipe id').2 ⟨info', hpp ▸ hs⟩, fun e => hid e.symm, hpp.symm⟩
+      · simp only [hpp, if_false]; exact hs
 
-/-- `RouterInv` only looks at the maps through `amGet` -/
-theorem RouterInv.congr (m m' : RouterMap) (sp : List (Nat × (Ident × PeerInfo)))
-    (hf : ∀ k, amGet m'.fwd k = amGet m.fwd k) (hr : ∀ k, amGet m'.rev k = amGet m.rev k)
-    (h : RouterInv m sp) : RouterInv m' sp := by
-  obtain ⟨hA, hB, hC⟩ := h
-  refine ⟨?_, ?_, hC⟩
-  · intro id info; rw [hf]; exact hA id info
-  · intro p id; rw [hr]; exact hB p id
-
-theorem RouterInv.updateIdentity (m : RouterMap) (sp : List (Nat × (Ident × PeerInfo))) (pipe : Nat)
-    (id : Ident) (uri : Nat) (s : Strat) (hinv : RouterInv m sp)
+theorem RouterInvCF.insert (m : RouterMap) (sp : RSpec) (pipe : Nat) (id : Ident) (info : PeerInfo)
+    (hip : info.pipe = pipe) (hcf : RouterInvCF m sp)
     (hnc : ∀ p i, amGet sp p = some (id, i) → p = pipe) :
-    RouterInv (m.updateIdentity pipe id uri s) (amInsert sp pipe (id, { uri := uri, strat := s })) :=
-  RouterInv.insert m sp pipe id _ hinv hnc
+    RouterInvCF { fwd := amInsert (remFwd m pipe id) id info, rev := amInsert m.rev pipe id }
+      (amInsert sp pipe (id, info)) := by
+  obtain ⟨hC, hD⟩ := hcf
+  refine ⟨?_, ?_⟩
+  · intro p id' info'
+    simp only [amGet_amInsert]
+    by_cases hpp : pipe = p
+    · simp only [hpp, if_true, Option.some.injEq, Prod.mk.injEq]
+      rintro ⟨e1, e2⟩
+      simp [e1, e2]
+    · simp only [hpp, if_false]
+      intro hs
+      have hid : id ≠ id' := by
+        intro e; subst e; exact hpp (hnc p _ hs).symm
+      simp only [hid, if_false]
+      refine remFwd_of_some m pipe id id' info' (hC _ _ _ hs) ?_
+      rintro ⟨_, _, hp⟩
+      exact hpp ((hD _ _ _ hs).symm.trans hp).symm
+  · intro p id' info'
+    simp only [amGet_amInsert]
+    by_cases hpp : pipe = p
+    · simp only [hpp, if_true, Option.some.injEq, Prod.mk.injEq]
+      rintro ⟨_, e2⟩
+      rw [← e2, hip, hpp]
+    · simp only [hpp, if_false]; exact hD p id' info'
 
-theorem RouterInv.addPeer (m : RouterMap) (sp : List (Nat × (Ident × PeerInfo))) (pipe : Nat)
-    (id : Ident) (uri : Nat) (hinv : RouterInv m sp)
-    (hnc : ∀ p i, amGet sp p = some (id, i) → p = pipe) :
-    RouterInv (m.addPeer id pipe uri) (amInsert sp pipe (id, { uri := uri, strat := .default })) := by
-  refine RouterInv.congr _ _ _ ?_ ?_ (RouterInv.insert m sp pipe id _ hinv hnc)
-  · intro k
-    simp only [RouterMap.addPeer]
-    cases amGet m.rev pipe with
-    | none => rfl
-    | some oldId =>
-      simp only
-      by_cases hoi : oldId = id
-      · subst hoi; simp
-      · have hb : (oldId != id) = true := by simpa using hoi
-        simp only [hb, if_true, amGet_amInsert, amGet_amRemove]
+theorem updateIdentity_eq (m : RouterMap) (pipe : Nat) (id : Ident) (uri : Nat) (s : Strat) :
+    m.updateIdentity pipe id uri s
+      = { fwd := amInsert (remFwd m pipe id) id { uri := uri, strat := s, pipe := pipe },
+          rev := amInsert m.rev pipe id } := rfl
+
+/-- `addPeer` inserts first and removes afterwards; the lookups agree with the canonical form -/
+theorem addPeer_fwd_get (m : RouterMap) (pipe : Nat) (id : Ident) (uri : Nat) (k : Ident) :
+    amGet (m.addPeer id pipe uri).fwd k
+      = amGet (amInsert (remFwd m pipe id) id { uri := uri, strat := .default, pipe := pipe }) k := by
+  simp only [RouterMap.addPeer, remFwd]
+  cases amGet m.rev pipe with
+  | none => rfl
+  | some oldId =>
+    simp only
+    by_cases hoi : oldId = id
+    · subst hoi; simp
+    · have hb : (oldId != id) = true := by simpa using hoi
+      have hown : ownedBy (amInsert m.fwd id { uri := uri, strat := .default, pipe := pipe }) oldId pipe
+          = ownedBy m.fwd oldId pipe := by
+        have : ¬ id = oldId := fun e => hoi e.symm
+        simp [ownedBy, amGet_amInsert, this]
+      simp only [hb, hown, Bool.true_and]
+      cases ownedBy m.fwd oldId pipe with
+      | false => simp
+      | true =>
+        simp only [if_true, amGet_amInsert, amGet_amRemove]
         by_cases h1 : id = k
         · subst h1; simp [hoi]
         · simp [h1]
-  · intro k
-    simp only [RouterMap.addPeer]
-    cases amGet m.rev pipe with
-    | none => rfl
-    | some oldId => simp only; split <;> rfl
 
-theorem RouterInv.removeByPipe (m : RouterMap) (sp : List (Nat × (Ident × PeerInfo))) (pipe : Nat)
-    (hinv : RouterInv m sp) : RouterInv (m.removeByPipe pipe) (amRemove sp pipe) := by
-  obtain ⟨hA, hB, hC⟩ := hinv
+theorem addPeer_rev (m : RouterMap) (pipe : Nat) (id : Ident) (uri : Nat) :
+    (m.addPeer id pipe uri).rev = amInsert m.rev pipe id := by
+  simp only [RouterMap.addPeer]
+  cases amGet m.rev pipe with
+  | none => rfl
+  | some oldId => simp only; split <;> rfl
+
+theorem RouterInv.updateIdentity (m : RouterMap) (sp : RSpec) (pipe : Nat)
+    (id : Ident) (uri : Nat) (s : Strat) (hinv : RouterInv m sp) :
+    RouterInv (m.updateIdentity pipe id uri s)
+      (amInsert sp pipe (id, { uri := uri, strat := s, pipe := pipe })) :=
+  RouterInv.insert m sp pipe id _ rfl hinv
+
+theorem RouterInvCF.updateIdentity (m : RouterMap) (sp : RSpec) (pipe : Nat)
+    (id : Ident) (uri : Nat) (s : Strat) (hcf : RouterInvCF m sp)
+    (hnc : ∀ p i, amGet sp p = some (id, i) → p = pipe) :
+    RouterInvCF (m.updateIdentity pipe id uri s)
+      (amInsert sp pipe (id, { uri := uri, strat := s, pipe := pipe })) :=
+  RouterInvCF.insert m sp pipe id _ rfl hcf hnc
+
+theorem RouterInv.addPeer (m : RouterMap) (sp : RSpec) (pipe : Nat)
+    (id : Ident) (uri : Nat) (hinv : RouterInv m sp) :
+    RouterInv (m.addPeer id pipe uri)
+      (amInsert sp pipe (id, { uri := uri, strat := .default, pipe := pipe })) := by
+  obtain ⟨hA, hB⟩ := RouterInv.insert m sp pipe id { uri := uri, strat := .default, pipe := pipe } rfl hinv
+  refine ⟨?_, ?_⟩
+  · intro p id'; rw [addPeer_rev]; exact hA p id'
+  · intro id' info'; rw [addPeer_fwd_get]; exact hB id' info'
+
+theorem RouterInvCF.addPeer (m : RouterMap) (sp : RSpec) (pipe : Nat)
+    (id : Ident) (uri : Nat) (hcf : RouterInvCF m sp)
+    (hnc : ∀ p i, amGet sp p = some (id, i) → p = pipe) :
+    RouterInvCF (m.addPeer id pipe uri)
+      (amInsert sp pipe (id, { uri := uri, strat := .default, pipe := pipe })) := by
+  obtain ⟨hC, hD⟩ :=
+    RouterInvCF.insert m sp pipe id { uri := uri, strat := .default, pipe := pipe } rfl hcf hnc
+  refine ⟨?_, hD⟩
+  intro p id' info'; rw [addPeer_fwd_get]; exact hC p id' info'
+
+/-- lookups in the forward map after `removeByPipe` -/
+theorem removeByPipe_fwd_get (m : RouterMap) (pipe : Nat) (k : Ident) :
+    amGet (m.removeByPipe pipe).fwd k
+      = if amGet m.rev pipe = some k ∧ ownedBy m.fwd k pipe = true then none else amGet m.fwd k := by
+  simp only [RouterMap.removeByPipe]
+  cases hold : amGet m.rev pipe with
+  | none => simp
+  | some id =>
+    simp only [Option.some.injEq]
+    by_cases hk : id = k
+    · subst hk
+      simp only [true_and, ownedBy]
+      cases hf : amGet m.fwd id with
+      | none => simp [hf]
+      | some info =>
+        simp only
+        by_cases hp : info.pipe = pipe
+        · simp [hp, amGet_amRemove]
+        · have : (info.pipe != pipe) = true := by simpa using hp
+          simp [this, hp, hf]
+    · simp only [hk, false_and, if_false]
+      cases hf : amGet m.fwd id with
+      | none => rfl
+      | some info =>
+        simp only
+        split
+        · rfl
+        · simp [amGet_amRemove, hk]
+
+theorem removeByPipe_rev_get (m : RouterMap) (pipe p : Nat) :
+    amGet (m.removeByPipe pipe).rev p = if pipe = p then none else amGet m.rev p := by
   simp only [RouterMap.removeByPipe]
   cases hold : amGet m.rev pipe with
   | none =>
-    have hnone : ∀ x, amGet sp pipe ≠ some x := by
-      intro x hx
-      have := (hB pipe x.1).2 ⟨x.2, hx⟩
-      simp [hold] at this
-    have hsame : ∀ p, amGet (amRemove sp pipe) p = amGet sp p := by
-      intro p
-      rw [amGet_amRemove]
-      by_cases hpp : pipe = p
-      · subst hpp
-        simp only [if_true]
-        cases h : amGet sp pipe with
-        | none => rfl
-        | some x => exact absurd h (hnone x)
-      · simp [hpp]
+    by_cases hpp : pipe = p
+    · subst hpp; simp [hold]
+    · simp [hpp]
+  | some id =>
     simp only
-    refine ⟨?_, ?_, ?_⟩
-    · intro id info; simp only [hsame]; exact hA id info
-    · intro p id; simp only [hsame]; exact hB p id
-    · intro p1 p2 id i1 i2; simp only [hsame]; exact hC p1 p2 id i1 i2
-  | some oldId =>
-    obtain ⟨oinfo, ho⟩ := (hB pipe oldId).1 hold
-    simp only
-    refine ⟨?_, ?_, ?_⟩
-    · intro id info
-      simp only [amGet_amRemove]
-      by_cases hoi : oldId = id
-      · subst hoi
-        simp only [if_true]
-        constructor
-        · intro h; cases h
-        · rintro ⟨p, hp⟩
-          by_cases hpp : pipe = p
-          · simp [hpp] at hp
-          · simp only [hpp, if_false] at hp
-            exact absurd (hC _ _ _ _ _ ho hp) hpp
-      · simp only [hoi, if_false]
-        rw [hA]
-        constructor
-        · rintro ⟨p, hp⟩
-          have : pipe ≠ p := by
-            intro e; subst e; rw [ho] at hp; simp at hp; exact hoi hp.1
-          exact ⟨p, by simp [this, hp]⟩
-        · rintro ⟨p, hp⟩
-          by_cases hpp : pipe = p
-          · simp [hpp] at hp
-          · exact ⟨p, by simpa [hpp] using hp⟩
-    · intro p id
-      simp only [amGet_amRemove]
-      by_cases hpp : pipe = p
-      · simp [hpp]
-      · simp only [hpp, if_false]; exact hB p id
-    · intro p1 p2 id i1 i2
-      simp only [amGet_amRemove]
-      by_cases h1 : pipe = p1
-      · simp [h1]
-      · by_cases h2 : pipe = p2
-        · simp [h2]
-        · simp only [h1, h2, if_false]; exact hC p1 p2 id i1 i2
+    cases amGet m.fwd id with
+    | none => simp only [amGet_amRemove]
+    | some info => simp only; split <;> simp only [amGet_amRemove]
+
+theorem RouterInv.removeByPipe (m : RouterMap) (sp : RSpec) (pipe : Nat)
+    (hinv : RouterInv m sp) : RouterInv (m.removeByPipe pipe) (amRemove sp pipe) := by
+  obtain ⟨hA, hB⟩ := hinv
+  refine ⟨?_, ?_⟩
+  · intro p id
+    rw [removeByPipe_rev_get]
+    simp only [amGet_amRemove]
+    by_cases hpp : pipe = p
+    · simp [hpp]
+    · simp only [hpp, if_false]; exact hA p id
+  · intro id info
+    rw [removeByPipe_fwd_get]
+    simp only [amGet_amRemove]
+    split
+    · intro h; cases h
+    · rename_i hn
+      intro hf
+      have hs := hB _ _ hf
+      by_cases hpp : pipe = info.pipe
+      · exfalso
+        apply hn
+        exact ⟨(hA pipe id).2 ⟨info, hpp ▸ hs⟩, (ownedBy_iff _ _ _).2 ⟨info, hf, hpp.symm⟩⟩
+      · simp only [hpp, if_false]; exact hs
+
+theorem RouterInvCF.removeByPipe (m : RouterMap) (sp : RSpec) (pipe : Nat)
+    (hcf : RouterInvCF m sp) : RouterInvCF (m.removeByPipe pipe) (amRemove sp pipe) := by
+  obtain ⟨hC, hD⟩ := hcf
+  refine ⟨?_, ?_⟩
+  · intro p id info
+    rw [removeByPipe_fwd_get]
+    simp only [amGet_amRemove]
+    by_cases hpp : pipe = p
+    · simp [hpp]
+    · simp only [hpp, if_false]
+      intro hs
+      have hf := hC _ _ _ hs
+      have hp := hD _ _ _ hs
+      split
+      · rename_i hy
+        obtain ⟨i, hi, hip⟩ := (ownedBy_iff _ _ _).1 hy.2
+        rw [hf] at hi
+        simp only [Option.some.injEq] at hi
+        subst hi
+        exact absurd (hip.symm.trans hp) hpp
+      · exact hf
+  · intro p id info
+    simp only [amGet_amRemove]
+    by_cases hpp : pipe = p
+    · simp [hpp]
+    · simp only [hpp, if_false]; exact hD p id info
 
 /-- removing a pipe does not disturb the routability of any identity other than the pipe's own -/
 theorem removeByPipe_lookup_other (m : RouterMap) (pipe : Nat) (id : Ident)
     (hid : m.identityOfPipe pipe ≠ some id) : (m.removeByPipe pipe).lookup id = m.lookup id := by
   simp only [RouterMap.identityOfPipe] at hid
-  simp only [RouterMap.removeByPipe, RouterMap.lookup]
-  cases hold : amGet m.rev pipe with
-  | none => rfl
-  | some oldId =>
-    simp only [amGet_amRemove]
-    have : oldId ≠ id := by intro e; subst e; exact hid hold
-    simp [this]
+  simp only [RouterMap.lookup, removeByPipe_fwd_get, hid, false_and, if_false]
 
 -- ---------------------------------------------------------------------------------------------
 -- envelope algebra
